@@ -37,7 +37,7 @@ PATH_INPUTS = [("", "ok"), ("$.a[*]", "ok"), ("$..b", "ok"), ("$[?length(@) > 1]
                ("$[9007199254740992]", "index"), ("$[?@.k == 'x\\u00e9']", "ok"), ("$.a[*] | $.k", "ok"), ("$[?@ == 1e400]", "syntax"),
                ("$.a\n  [*]\n", "ok"), ("$[\n  ?length(@) > 1\n  && @[0] == 1\n]", "ok"), ("$.a\n[", "syntax"), ("\n$.k", "ok")]
 PTR_INPUTS = [("/a/0", "ok"), ("/a/2/b", "ok"), ("", "ok"), ("/nope", "resolution"), ("/a/9", "resolution"), ("a", "pointer"), ("/s%20t", "ok"), ("/k", "ok"), ("/a\\", "pointer"),
-              ("/\\u00e9", "ok"), ("/s t", "ok")]          # these two resolve to different members depending on --no-unicode-escape / -u
+              ("/\\u00e9", "ok"), ("/s t", "ok"), ("#/a/0", "pointer"), ("#", "pointer"), ("#/s%20t", "pointer")]          # these two resolve to different members depending on --no-unicode-escape / -u
 PATCH_INPUTS = [([{"op": "add", "path": "/z", "value": 1}], "ok"), ([{"op": "remove", "path": "/a/0"}, {"op": "copy", "from": "/a", "path": "/c"}], "ok"), ([], "ok"),
                 ([{"op": "remove", "path": "/nope"}], "patch"), ([{"op": "test", "path": "/a", "value": 1}], "patch"), ([{"op": "nosuch"}], "patch"), ({"op": "add"}, "notlist"),
                 ([{"op": "add", "path": "x", "value": 1}], "patch"),
